@@ -644,8 +644,12 @@ class C01(ost.OutstationProp):
             probe_at = len(ops)
             rxop(ost.frag(pseq, F["read"], ost.read_classes(rng.choice([(1, 2, 3, 0), (0,), (1, 2, 3)]))))
             ops.append(("sleep", 2200))
-            out.append(Case(sid, script_text(sid, "outstation", cfg, ops),
-                            {"engine": "outstation", "kind": state, "cfg": cfg, "probe_op": probe_at, "probe_seq": pseq}))
+            meta = {"engine": "outstation", "kind": state, "cfg": cfg, "probe_op": probe_at, "probe_seq": pseq}
+            if state.startswith("huge"):
+                # the extracted session model needs minutes for a digest of 10^5 headers (list append per header);
+                # these scripts are judged on the implementation only: no panic, probe answered
+                meta["impl_only"] = True
+            out.append(Case(sid, script_text(sid, "outstation", cfg, ops), meta))
         return out
 
     def oracle_outstation(self, case, impl):
